@@ -93,7 +93,9 @@ def main(tier):
     dcore = gen_dynamic.dynobj_core()
     if tier == "quick":
         dcore = dcore[seed() % 2 :: 2]
-    cases = core + rand + ncore + dcore + nested
+    icore = gen_dynamic.idle_core()   # steps with an empty action dict
+    ck.cov["idle_core_cases"] = len(icore)
+    cases = core + rand + ncore + dcore + icore + nested
     need = ["Setup", "ScenarioStep", "Record", "MonitorResume", "TerminationChecks", "BehaviorResume",
             "ExecuteActions", "SimulatorStep", "Tick", "UpdateObjects", "Finish"]
     rows = run_batch(ck, cases, need_actions=need)
